@@ -15,8 +15,11 @@ import (
 	"encoding/json"
 	"fmt"
 	"os"
+	"strings"
+	"sync"
 	"time"
 
+	"src.elv.sh/pkg/parse"
 	"verif.local/harness/checks/c15/elvcore"
 	"verif.local/harness/elv"
 	"verif.local/harness/lib"
@@ -38,7 +41,7 @@ func resetEvent() Event {
 }
 
 // features covered by spec and generator at this point of the growth
-var features = elvcore.Features{Control: true, Fn: true, Exc: true, Logic: true, XCap: true, ErrRate: 3}
+var features = elvcore.Features{Control: true, Fn: true, Exc: true, Logic: true, XCap: true, RestOpts: true, Pipes: true, ErrRate: 1}
 
 // runProgram renders and runs the chunks of one program on a fresh Evaler and records the events.
 func runProgram(chunks []*elvcore.Node) ([]Event, error) {
@@ -72,6 +75,35 @@ func runProgram(chunks []*elvcore.Node) ([]Event, error) {
 	return evs, nil
 }
 
+// directed parses the corpus programs with the real parser and lifts them to ASTs.
+func directed() ([][]*elvcore.Node, error) {
+	var out [][]*elvcore.Node
+	srcs := corpus
+	if p := os.Getenv("VERIF_C15_PROBE"); p != "" { // development: one program, one chunk per line
+		b, err := os.ReadFile(p)
+		if err != nil {
+			return nil, lib.Infra("%v", err)
+		}
+		srcs = [][]string{strings.Split(strings.TrimSpace(string(b)), "\n")}
+	}
+	for _, prog := range srcs {
+		var chunks []*elvcore.Node
+		for _, src := range prog {
+			tree, err := parse.Parse(parse.Source{Name: "[corpus]", Code: src}, parse.Config{})
+			if err != nil {
+				return nil, lib.Infra("corpus chunk does not parse: %q: %v", src, err)
+			}
+			n, err := elvcore.LiftChunk(tree.Root)
+			if err != nil {
+				return nil, lib.Infra("corpus chunk outside the AST schema: %q: %v", src, err)
+			}
+			chunks = append(chunks, n)
+		}
+		out = append(out, chunks)
+	}
+	return out, nil
+}
+
 type judged struct {
 	bad  []lib.BadCase
 	flat []Event
@@ -96,20 +128,126 @@ func judge(c *lib.Ctx, name string, progs [][]Event, par int) (*judged, error) {
 	return j, nil
 }
 
+// canon: canonical JSON text of a value (object keys sorted, numbers as written by encoding/json)
+func canon(v any) string {
+	b, _ := json.Marshal(v)
+	var x any
+	json.Unmarshal(b, &x)
+	b, _ = json.Marshal(x)
+	return string(b)
+}
+
+// generated: M + G.  TLC enumerates the template programs (GenElvCore), checks the meta-theorems
+// on each, and emits it with the prescribed output and cause; each is rendered and run on a
+// fresh Evaler and compared.
+func generated(c *lib.Ctx) error {
+	depth := c.Pick(2, 3)
+	c.Set("gen_depth", depth)
+	cfg := fmt.Sprintf("CONSTANT Depth = %d\nSPECIFICATION Spec\nINVARIANT FinallyRuns\nINVARIANT ElseIffNoThrow\nINVARIANT BreakContained\nINVARIANT ReturnContained\nINVARIANT LogicOneValue\nINVARIANT CaptureTotal\nINVARIANT ChunkStops\nINVARIANT Emit\n", depth)
+	r, err := c.TLC("GenElvCore", lib.TLCRun{Dir: c.SpecDir("ElvCore"), Module: "GenElvCore", Workers: 6, Timeout: 12 * time.Minute, HeapGB: 8,
+		Files: map[string][]byte{"GenElvCore.cfg": []byte(cfg)}})
+	if err != nil {
+		return err
+	}
+	if r.ErrKind != "" {
+		return lib.Infra("the reference semantics violates its own meta-theorem %s %s:\n%s", r.ErrKind, r.ErrName, r.ErrTrace)
+	}
+	lines := r.PrintedStrings()
+	seen := map[string]bool{}
+	type gcase struct {
+		Ast *elvcore.Node `json:"ast"`
+		Oom bool          `json:"oom"`
+		Out []any         `json:"out"`
+		Exc any           `json:"exc"`
+	}
+	var cases []gcase
+	for _, l := range lines {
+		if seen[l] {
+			continue
+		}
+		seen[l] = true
+		var k gcase
+		if err := json.Unmarshal([]byte(l), &k); err != nil {
+			return lib.Infra("bad program from TLC: %v: %.300s", err, l)
+		}
+		cases = append(cases, k)
+	}
+	if int64(len(cases)) != r.Distinct {
+		return lib.Infra("TLC found %d programs but emitted %d", r.Distinct, len(cases))
+	}
+	c.Logf("G: %d template programs of nesting depth <= %d, meta-theorems hold", len(cases), depth)
+	errs := make([]error, len(cases))
+	oom := 0
+	var mu sync.Mutex
+	lib.Parallel(len(cases), 8, func(i int) {
+		k := cases[i]
+		evs, err := runProgram([]*elvcore.Node{k.Ast})
+		if err != nil {
+			errs[i] = err
+			return
+		}
+		e := evs[1]
+		c.AddEvals(1)
+		c.Distinct(e.Src)
+		mu.Lock()
+		defer mu.Unlock()
+		if i < 2 {
+			c.Sample(map[string]any{"src": e.Src, "prescribed": map[string]any{"out": k.Out, "exc": k.Exc}})
+		}
+		if k.Oom {
+			oom++
+			return
+		}
+		if k.Out == nil {
+			k.Out = []any{}
+		}
+		if canon(k.Out) != canon(e.Out) || canon(k.Exc) != canon(e.Exc) {
+			c.Reject("elvcore-gen:"+e.Exc["c"].(string), fmt.Sprintf("program `%s`: reference semantics prescribes out=%s exc=%s; real Evaler gave out=%s exc=%s",
+				e.Src, canon(k.Out), canon(k.Exc), canon(e.Out), canon(e.Exc)), []Event{resetEvent(), e})
+		}
+	})
+	for _, e := range errs {
+		if e != nil {
+			return e
+		}
+	}
+	c.AddTraces(len(cases))
+	c.Set("gen_programs", len(cases))
+	c.Set("gen_out_of_model", oom)
+	c.Set("exhaustive", true)
+	return nil
+}
+
 func run(c *lib.Ctx) error {
 	if c.Replay != "" {
 		return replay(c)
 	}
 	c.Set("features", features.Names())
+	if os.Getenv("VERIF_C15_NOGEN") == "" { // development switch
+		if err := generated(c); err != nil {
+			return err
+		}
+	}
 	c.Set("rule", "V: one case per top-level chunk evaluated by the real Evaler and by EvalChunk; distinct by rendered source; chunks that only declare variables without output or exception are not counted as non-trivial")
 
 	nprog := c.Pick(500, 12000)
 	if s := os.Getenv("VERIF_C15_N"); s != "" { // development only
 		fmt.Sscan(s, &nprog)
 	}
+	dir, err := directed()
+	if err != nil {
+		return err
+	}
+	ndir := len(dir)
+	c.Set("directed_programs", ndir)
+	nprog += ndir
 	progs := make([][]Event, nprog)
 	errs := make([]error, nprog)
 	lib.Parallel(nprog, 8, func(i int) {
+		if i < ndir {
+			progs[i], errs[i] = runProgram(dir[i])
+			return
+		}
 		g := elvcore.NewGen(c.Seed*1_000_003+int64(i), features)
 		chunks := g.Program(1+int(g.R.Intn(4)), 4, 3, 400)
 		progs[i], errs[i] = runProgram(chunks)
@@ -158,6 +296,9 @@ func run(c *lib.Ctx) error {
 		kind, _ := b.Info[0].(string)
 		if kind == "oom" {
 			oom++
+			if oom <= 8 {
+				c.Logf("out of model: %s", j.flat[b.Index].Src)
+			}
 			continue
 		}
 		gi := j.grp[b.Index]
